@@ -10,3 +10,14 @@ func Annotation(s string) string {
 }
 
 var annotationReplacer = regexp.MustCompile(`\s+`)
+
+// Note returns the text of a (possibly multi-line) note of a rule or an enum value as it is
+// written, with LF line ends whatever line ends the file uses.
+func Note(s string) string {
+	if strings.IndexByte(s, '\r') < 0 {
+		return s
+	}
+	return noteLineEnds.Replace(s)
+}
+
+var noteLineEnds = strings.NewReplacer("\r\n", "\n", "\r", "\n")
